@@ -91,7 +91,9 @@ def process_graphql_query(
     """
     schema.validate()
 
-    instrumentation = instrumentation or Instrumentation()
+    instrumentation = (
+        Instrumentation() if instrumentation is None else instrumentation
+    )
     runtime = runtime or BlockingRuntime()
 
     instrumentation.on_query_start()
